@@ -1,6 +1,7 @@
 package cfgsm
 
 import (
+	"fmt"
 	"math/rand"
 	"sort"
 )
@@ -17,6 +18,42 @@ var BackPool = []string{"b0", "b1", "b2", "b3", "b4", "b5", "b6"}
 var TCPBackPool = []string{"tb0", "tb1"}
 var PathPool = []string{"/", "/a", "/b"}
 var TCPPool = []string{"t0:7001", "t1:7001", "t0:7002"}
+
+// AliasPool / AliasRePool: the server aliases a host of the pool may declare. No two hosts share
+// an alias and no alias is a hostname (config.hostAliases() gives a contended alias to one host
+// only, which would make the maps of a host depend on every other host).
+func AliasPool(h string) []string {
+	i := HostIdx(h)
+	return []string{fmt.Sprintf("a%d", 2*i), fmt.Sprintf("a%d", 2*i+1)}
+}
+
+// UsesAliasRe tells whether some host of the history declares a server alias regex or an alias
+// that is not its own. The keys of a regex live
+// in map files of their own (<map>__regex.map next to <map>__prefix.map, each written only when
+// it has entries), a split the Coq model does not have: those histories are judged by the
+// model-free oracle only.
+func UsesAliasRe(steps []Step) bool {
+	for _, st := range steps {
+		for name, h := range st.State.Hosts {
+			if h.AliasRe != "" {
+				return true
+			}
+			// an alias that another host may claim as well, or that is a hostname: the host that
+			// answers to it depends on every other host (config.hostAliases()), which the model
+			// leaves out
+			if h.Alias != "" && h.Alias != AliasPool(name)[0] && h.Alias != AliasPool(name)[1] {
+				return true
+			}
+		}
+	}
+	return false
+}
+
+// AliasRePool ...
+func AliasRePool(h string) []string {
+	i := HostIdx(h)
+	return []string{fmt.Sprintf("^r%d$", 2*i), fmt.Sprintf("^r%d$", 2*i+1)}
+}
 
 // DefaultName is the backend of --default-backend-service
 const DefaultName = "bd"
@@ -45,10 +82,34 @@ func ensureBackend(rng *rand.Rand, s *S, b string) {
 }
 
 func mutate(rng *rand.Rand, s *S, past []S) {
-	switch rng.Intn(12) {
+	switch rng.Intn(14) {
+	case 12, 13: // only the host side: a server alias (name or regex) is added, renamed or removed
+		if ks := sortedKeys(s.Hosts); len(ks) > 0 {
+			h := pick(rng, ks)
+			hs := s.Hosts[h]
+			if rng.Intn(6) == 0 {
+				hs.AliasRe = pick(rng, append(AliasRePool(h), ""))
+			} else if rng.Intn(8) == 0 {
+				// contended: the alias of another host, or a hostname
+				o := pick(rng, HostPool)
+				hs.Alias = pick(rng, append(AliasPool(o), o))
+				if hs.Alias == h {
+					hs.Alias = ""
+				}
+			} else {
+				hs.Alias = pick(rng, append(AliasPool(h), ""))
+			}
+			s.Hosts[h] = hs
+		}
 	case 0, 1: // add / replace a host
 		h := pick(rng, HostPool)
 		hs := H{TLS: rng.Intn(3) == 0}
+		if rng.Intn(3) == 0 {
+			hs.Alias = pick(rng, AliasPool(h))
+		}
+		if rng.Intn(20) == 0 {
+			hs.AliasRe = pick(rng, AliasRePool(h))
+		}
 		perm := rng.Perm(len(PathPool))
 		n := 1 + rng.Intn(3)
 		for _, i := range perm[:n] {
